@@ -12,6 +12,16 @@
 #include "verifhook.h"
 #endif
 
+/*
+ * The exit status is the error count; only its low 8 bits reach the parent
+ * process, so 256 errors would be reported as success.
+ */
+static int
+mainExitStatus(int nerrors)
+{
+	return (nerrors < 0 || nerrors > 255) ? 255 : nerrors;
+}
+
 int
 main(int argc, String *argv)
 {
@@ -20,8 +30,8 @@ main(int argc, String *argv)
 	{
 		int rc = compCmd(argc, argv);
 		VERIF_EVENT(("{\"ev\":\"Exit\",\"status\":%d,\"via\":\"main\"}", rc));
-		return rc;
+		return mainExitStatus(rc);
 	}
 #endif
-	return compCmd(argc, argv);
+	return mainExitStatus(compCmd(argc, argv));
 }
